@@ -19,8 +19,17 @@ ROT2 = [0, 42, 359.5, 360, 370, 720.25, -10, -360, 1000.0, -0.5, 0.25,
         # whole numbers beyond 2**53: exactly representable as ints
         2 ** 53 + 1, -(2 ** 53 + 1), 10 ** 18 + 7, 2 ** 64 + 33,
         # residues a hair below a full turn (exact in binary)
-        359.99999999999994, -2.0 ** -42, 720 - 2.0 ** -41, 360 - 2.0 ** -40]
+        359.99999999999994, -2.0 ** -42, 720 - 2.0 ** -41, 360 - 2.0 ** -40,
+        # other real number types (their % need not follow Python's sign
+        # rule, their float() need not be exact)
+        ['D', '-30'], ['D', '-0.5'], ['D', '725.25'], ['D', '-360'],
+        ['D', '100000000000000000001'], ['F', -1441, 4], ['F', 2885, 4]]
 COMPS = [0, 1, -1, 0.5, 2, 10.25, -3.5, 100]
+
+
+def _rep(v):
+    """repr, with the two float zeros taken for one number."""
+    return repr(v + 0.0) if isinstance(v, float) else repr(v)
 
 
 class Interp:
@@ -162,6 +171,13 @@ class Interp:
     def value(self, dim, prop, v):
         """Scenario value -> Python value."""
         if prop == 'rotation' and dim == 2:
+            if isinstance(v, list):
+                self.probes['rotation_of_another_real_type'] += 1
+                if v[0] == 'D':
+                    from decimal import Decimal
+                    return Decimal(v[1])
+                from fractions import Fraction
+                return Fraction(v[1], v[2])
             return v
         kind, comps = v
         comps = comps[:dim] + [0] * (dim - len(comps))
@@ -412,20 +428,21 @@ class Interp:
         with the value it stored (values are unique per assignment)."""
         want = Counter()
         for k, (t, prop, val) in enumerate(self.executed):
-            stored = float(val % 360) if (prop == 'rotation'
-                                          and self.dims[t] == 2) else val
+            from fractions import Fraction
+            stored = float(Fraction(val) % 360) if (
+                prop == 'rotation' and self.dims[t] == 2) else val
             if k == 0 and prop == 'rotation' and self.dims[t] == 2:
                 self.model[t][prop] = self.model[t][prop]
             for li in self.reg[t]:
                 names = self.names_of(li)
                 if prop in names:
-                    want[(li, EVENT[prop], repr(stored))] += 1
+                    want[(li, EVENT[prop], _rep(stored))] += 1
         # the first assignment's model entry (nested ones set theirs)
         t0, p0, v0 = self.executed[0]
         if not any((t, p) == (t0, p0) for t, p, v in self.executed[1:]):
             self.model[t0][p0] = ('rot2', v0) if (
                 p0 == 'rotation' and self.dims[t0] == 2) else v0
-        got = Counter((li, ev, repr(value))
+        got = Counter((li, ev, _rep(value))
                       for li, ev, value, inside in self.calls)
         if got != want:
             missing = list((want - got).elements())
